@@ -18,7 +18,10 @@ Dom_interp(f, a) ==
        /\ LET xs == CoordInts(f, a.d) IN
             (\A i \in 1..(Len(xs) - 1) : xs[i] < xs[i + 1]) \/ (\A i \in 1..(Len(xs) - 1) : xs[i] > xs[i + 1])
   /\ Len(a.nxs) >= 1
-  /\ \A i \in 1..Len(f.vars) : VarHasDim(f.vars[i], a.d) => (f.vars[i].enc = "num" /\ NoDup(f.vars[i].dims))
+  \* (the weights are applied by a 1-D function: like every callable it needs
+  \* non-empty arrays)
+  /\ \A i \in 1..Len(f.vars) : VarHasDim(f.vars[i], a.d) =>
+        (f.vars[i].enc = "num" /\ NoDup(f.vars[i].dims) /\ ProdSeq(f.vars[i].shape) >= 1)
 \* values are decided on small integer data without non-finite cells
 Dec_interp(f, a) ==
   \A i \in 1..Len(f.vars) : VarHasDim(f.vars[i], a.d) =>
